@@ -8,7 +8,7 @@ From OL Require Import Sexp PyAst Unparse.
 From OLGen Require Import Tables.
 Import ListNotations.
 Open Scope list_scope.
-Open Scope N_scope.
+Local Open Scope N_scope.
 
 Definition BSL : N := 92.
 
